@@ -98,6 +98,16 @@ class Sim:
                     cb = self.on_gate
             if first and cb is not None:
                 cb(name)
+        if threading.get_ident() == self.main_ident:
+            # the thread executing solve() is never parked: what it does itself is program
+            # order, not writer progress (parking it could only deadlock the run)
+            blocking = False
+        if self.in_save and name.startswith("delete:"):
+            # a deletion while the solver thread is inside save(): on the pinned tree retention
+            # deletion belongs to the writer pipeline and cannot happen here (the previous writer
+            # is finished, the new one parked at its entry) - so this is the solver deleting
+            # through Orbax's worker pool and waiting for it: parking the workers would deadlock
+            blocking = False
         with self.cv:
             if blocking and self.block and not self._is_open(name):
                 self.parked.add(name)
@@ -108,6 +118,16 @@ class Sim:
             if first:
                 self.passed.append(name)
             self.cv.notify_all()
+
+    def forget(self, step: int):
+        """A new save of a step label that was saved before in this lifetime starts from scratch."""
+        with self.cv:
+            self.done.discard(step)
+            self.phase_of.pop(step, None)
+            self.meta_opened.discard(step)
+            for g in (f"item:{step}", f"step:{step}"):
+                self.open.discard(g)
+                self.seen.discard(g)
 
     def _writer_vanished(self) -> bool:
         return self.foreign_started > 0 and self.live_bg == 0
